@@ -35,7 +35,7 @@ func TestMain(m *testing.M) {
 		"ForceTrim is the memory-emergency trim; it documents that it ignores the grace period, so only the protected-peers rule, the ordering rule, the low-watermark no-op and the eligible-peers bound are asserted for it",
 		"which of several equal-valued peers is closed is not asserted (ties free); closing more peers than necessary is not asserted against",
 		"watermarks >= 1 (0 disables trimming by documentation)",
-		"decay schedule not modelled: across a clock segment <= one decayer resolution a decaying value must be unchanged or decayed exactly once",
+		"decay schedule modelled from the documented semantics: the decayer ticks every Resolution (from the manager's creation); a tag is decayed once per effective Interval (DecayingTag.Interval()), first one Interval after the decayer tick at or before its registration; only intervals that are multiples of the resolution (or shorter than it) are generated",
 		"synctest virtual time; benbjohnson/clock.New() follows it",
 	)
 	hx.Main(m)
@@ -55,7 +55,7 @@ type weighted struct {
 var opTable = []weighted{
 	{"connect", 12}, {"connect-burst", 4}, {"connect-dup", 2}, {"disconnect", 5}, {"disconnect-unknown", 2},
 	{"tag", 7}, {"untag", 3}, {"upsert", 3},
-	{"dreg", 3}, {"dbump", 5}, {"dremove", 1}, {"dclose", 1},
+	{"dreg", 3}, {"dbump", 5}, {"dremove", 1}, {"dclose", 1}, {"decay-scenario", 3},
 	{"protect", 4}, {"unprotect", 3},
 	{"advance", 10}, {"trim", 6}, {"force", 3}, {"flush-closed", 4}, {"streams", 1},
 }
@@ -157,9 +157,40 @@ func (w *world) step(rt *rapid.T) {
 		if len(free) == 0 {
 			rt.Skip("all decaying names in use")
 		}
-		mult := pick(rt, "intervalHalves", []int{1, 2, 4, 6}) // in halves of the resolution
+		mult := pick(rt, "intervalHalves", []int{1, 2, 4, 6, 12}) // in halves of the resolution
 		w.registerDecaying(pick(rt, "name", free), time.Duration(mult)*w.cfg.decayRes/2,
 			rapid.IntRange(0, nDecayKinds-1).Draw(rt, "decay"), rapid.IntRange(0, nBumpKinds-1).Draw(rt, "bump"))
+	case "decay-scenario":
+		// a long-interval tag registered late: idle decayer rounds, register, bump, several rounds
+		var free []string
+		live := map[string]bool{}
+		for _, d := range w.liveTags() {
+			live[d.name] = true
+		}
+		for _, n := range decayNames {
+			if !live[n] {
+				free = append(free, n)
+			}
+		}
+		if len(free) == 0 {
+			rt.Skip("all decaying names in use")
+		}
+		res := w.cfg.decayRes
+		w.advance(time.Duration(rapid.IntRange(1, 3).Draw(rt, "idleRounds"))*res + pick(rt, "offset", []time.Duration{0, time.Second, res / 2}))
+		w.registerDecaying(pick(rt, "name", free), time.Duration(pick(rt, "intervalMultiple", []int{2, 3, 6}))*res,
+			pick(rt, "decay", []int{decayFixed2, decayHalf, decayFixed2, decayExpire}), rapid.IntRange(0, nBumpKinds-1).Draw(rt, "bump"))
+		d := w.dtags[len(w.dtags)-1]
+		if d.closed {
+			rt.Skip("registration refused")
+		}
+		if rapid.Bool().Draw(rt, "waitBeforeBump") {
+			w.advance(pick(rt, "wait", []time.Duration{time.Second, res, res + time.Second}))
+		}
+		nb := rapid.IntRange(1, 3).Draw(rt, "nbumps")
+		for i := 0; i < nb; i++ {
+			w.bump(d, rapid.IntRange(0, np-1).Draw(rt, "peer"), rapid.IntRange(4, 12).Draw(rt, "delta"))
+		}
+		w.advance(time.Duration(rapid.IntRange(1, 7).Draw(rt, "rounds"))*res + pick(rt, "offset2", []time.Duration{0, time.Second}))
 	case "dbump":
 		lt := w.liveTags()
 		if len(lt) == 0 {
